@@ -532,13 +532,19 @@ def block_rho(b: Block) -> np.ndarray:
     raise ValueError(f"{b.where}: array shape {a.shape} does not fit dimensions {b.dims}")
 
 
-def joint_rho(s: Snapshot, names: List[str]):
+def joint_rho(s: Snapshot, names: List[str], partial: bool = False):
     """Joint density matrix of all live subsystems, axes ordered as `names` (must be exactly the live
-    set).  Returns (rho[D,D], dims)."""
+    set; with partial=True exactly a union of whole blocks - blocks are independent tensor factors).  Returns (rho[D,D], dims)."""
     order: List[str] = []
     dims: List[int] = []
     rho = np.array([[1.0 + 0j]])
     for b in s.blocks:
+        if partial:
+            inside = [m in names for m in b.members]
+            if not any(inside):
+                continue
+            if not all(inside):
+                raise ValueError(f"scope {names} cuts through block {b.where} {b.members}")
         rho = np.kron(rho, block_rho(b))
         order.extend(b.members)
         dims.extend(b.dims)
